@@ -241,9 +241,32 @@ def stale_report_st(draw, tier):
 
 
 @st.composite
+def group_below_st(draw, tier):
+    """A group of several members below one network / one non-contiguous wildcard / a run of adjacent blocks that
+    holds most of them; everything else in the two entries is equal, so the members decide alone."""
+    from checks.c13 import adjacent_run_group, group_under_net, group_under_wild
+
+    platform = draw(st.sampled_from(["ios", "nxos"]))
+    top = draw(G.ace_st(platform, kmax=0, seq=False, noise=False, established=False))
+    side = draw(st.sampled_from(["src", "dst"]))
+    a, b = draw(st.one_of(group_under_net(), group_under_wild(), group_under_wild(), adjacent_run_group()))
+    bottom = dict(top)
+    for rec, ad in ((top, a), (bottom, b)):
+        rec[side] = ad if ad["k"] == "group" or not R.is_contiguous(ad["w"]) else G.native_addr(G.addr_pair(ad), platform)
+    items = [{"t": "ace", "rec": G.to_native(top, platform)}, {"t": "ace", "rec": G.to_native(bottom, platform)}]
+    if draw(st.booleans()):
+        items.insert(1, {"t": "rem", "text": "x between", "seq": 0})
+    G.normalise_groups(items)
+    acl = {"platform": platform, "name": "T", "type": "extended", "items": items, "prefix": "= ", "group_by": "", "indent": "  "}
+    return {"acl": acl, "skip": draw(st.sampled_from([None, None, ["nc_wildcard"], ["addrgroup"]]))}
+
+
+@st.composite
 def case_st(draw, tier):
     if draw(st.sampled_from(range(3))) == 0:
         return draw(embedded_pair_st(tier))
+    if draw(st.integers(0, 9)) == 7:
+        return draw(group_below_st(tier))
     if draw(st.integers(0, 9)) == 5:
         return draw(stale_report_st(tier))
     acl = draw(G.acl_st(min_items=3, max_items=12, kmax=3, groups=True, members=True, seqs=True, empty_sets=True, native=True,
